@@ -142,7 +142,7 @@ class LoopModel:
         out.append('<tr class="row1">\n')
         col, row = 0, 1
         for i, x in enumerate(seg):
-            if col == ncols:
+            if col == ncols and i > 0:  # (before the first item there is no row to wrap: cols 0 starts in row 1 like any other)
                 col = 1
                 row += 1
             else:
